@@ -323,10 +323,17 @@ impl<'a> LiveEvents<'a> {
             let (raw, span) = item.map_err(Error::from_scan_error)?;
             let location = location_from_span(&span);
 
-            if let Some(ref mut budget) = self.budget
-                && let Err(breach) = budget.observe(&raw)
-            {
-                return Err(budget_error(breach).with_location(location));
+            if let Some(ref mut budget) = self.budget {
+                // An alias is expanded by replaying the anchored node, whose events are observed
+                // as they are served; the alias itself must not take a key/value position too.
+                let observed = if matches!(raw, Event::Alias(_)) {
+                    budget.observe_alias_to_be_replayed()
+                } else {
+                    budget.observe(&raw)
+                };
+                if let Err(breach) = observed {
+                    return Err(budget_error(breach).with_location(location));
+                }
             }
 
             match raw {
@@ -468,6 +475,9 @@ impl<'a> LiveEvents<'a> {
 
                     if self.rec_stack.iter().any(|frame| frame.id == anchor_id) {
                         if crate::anchor_store::recursive_anchor_in_progress(anchor_id) {
+                            if let Some(budget) = self.budget.as_mut() {
+                                budget.alias_occupies_position();
+                            }
                             let ev = Ev::Scalar {
                                 value: String::new().into(),
                                 tag: SfTag::Null,
